@@ -1,5 +1,158 @@
-(* C18 — placeholder statements; the scan theorems are in BT/ConcProofs.v (to come) *)
-From Coq Require Import List NArith ZArith Bool.
-From Emu.BT Require Import Types Server Conc.
-Example C18_model_runs : snd (cstep (mkCState nil None nil) 0) = OIdle.
-Proof. reflexivity. Qed.
+(* C18 — Bigtable: scans stay sane while the table is being written.
+   Only statements here; the interleaving model is BT/Conc.v, proofs are in BT/ScanConcProofs.v.
+   The scanning thread runs among ANY other threads (writers, other scans, admin requests, GC
+   passes); all theorems hold for every schedule. *)
+From Coq Require Import List NArith ZArith Bool Sorting Lia.
+Import ListNotations.
+From Emu.Common Require Import Bytes Str StrProofs.
+From Emu.BT Require Import Types Mutate Filter RowSet Server ScanProofs AdminProofs Bulk Conc ConcProofs ScanConcProofs.
+Local Open Scope Z_scope.
+
+(* ---- (a) every returned row comes from a snapshot ---- *)
+
+(* [st]: the read is parked before its first lock; [sb ++ [i]]: any schedule whose last step is
+   the read's answer.  Every returned row was produced by the scan's loop body [visit] (filter,
+   then scrub with the table's families) from a row stored under its key in the table in one of
+   [own_servers]: the server states in which the scan itself ran a section (each range's snapshot
+   is taken in one of them) — states that existed between the scan's first and last step *)
+Theorem C18_scan_rows_from_snapshot : forall st i c rest tbl keys ranges f limit sb res,
+  thread_at st i c rest PAtLock -> cl_req c = BReadRows tbl keys ranges f limit ->
+  done_of i sb (snd (crun st sb)) = [] ->
+  snd (cstep (fst (crun st sb)) i) = ODone (ok (YRows res)) ->
+  forall r, In r res -> emitted_from (own_servers i st (sb ++ [i])) tbl f r.
+Proof. exact scan_rows_from_snapshot. Qed.
+Print Assumptions C18_scan_rows_from_snapshot.
+
+(* these states are servers after prefixes of the schedule, at steps of the scan *)
+Theorem C18_own_servers_prefix : forall i sched st s, In s (own_servers i st sched) ->
+  exists n, (n < length sched)%nat /\ nth_error sched n = Some i /\ s = cs_server (fst (crun st (firstn n sched))).
+Proof. exact own_servers_prefix. Qed.
+Print Assumptions C18_own_servers_prefix.
+
+(* without a filter, spelled out: the row is the value stored under its key after a prefix of
+   the schedule, scrubbed with the families of the table after a (possibly later) prefix *)
+Theorem C18_scan_rows_from_snapshot_nofilter : forall st i c rest tbl keys ranges limit sb res,
+  thread_at st i c rest PAtLock -> cl_req c = BReadRows tbl keys ranges None limit ->
+  done_of i sb (snd (crun st sb)) = [] ->
+  snd (cstep (fst (crun st sb)) i) = ODone (ok (YRows res)) ->
+  forall r, In r res ->
+  exists n1 n2 t1 t2 fs,
+    (n1 < length (sb ++ [i]))%nat /\ nth_error (sb ++ [i]) n1 = Some i
+    /\ alookup tbl (cs_server (fst (crun st (firstn n1 (sb ++ [i]))))) = Some t1
+    /\ In (row_key r, fs) (t_rows t1)
+    /\ (n2 < length (sb ++ [i]))%nat /\ nth_error (sb ++ [i]) n2 = Some i
+    /\ alookup tbl (cs_server (fst (crun st (firstn n2 (sb ++ [i]))))) = Some t2
+    /\ r = mkRow (row_key r) (scrub_fams (t_fams t2) fs) /\ row_fams r <> [].
+Proof. exact scan_rows_from_snapshot_nofilter. Qed.
+Print Assumptions C18_scan_rows_from_snapshot_nofilter.
+
+(* ---- (b) ascending, no duplicates ---- *)
+Theorem C18_scan_ascending_nodup : forall s0 progs sched i c rest p res, server_wf s0 ->
+  let st := fst (crun (init_cstate s0 progs) sched) in
+  thread_at st i c rest p -> is_read (cl_req c) = true ->
+  snd (cstep st i) = ODone (ok (YRows res)) ->
+  StronglySorted lex_lt (map row_key res) /\ NoDup (map row_key res).
+Proof. exact scan_ascending_nodup. Qed.
+Print Assumptions C18_scan_ascending_nodup.
+
+(* every reachable server keeps its tables in key order (also under GC batches) *)
+Theorem C18_crun_wf : forall sched st, server_wf (cs_server st) -> server_wf (cs_server (fst (crun st sched))).
+Proof. exact crun_wf. Qed.
+Print Assumptions C18_crun_wf.
+
+(* ---- (c) rows nobody touches are returned exactly ---- *)
+Theorem C18_scan_untouched_rows_exact : forall st i c rest tbl keys ranges limit sb res k fs tf,
+  thread_at st i c rest PAtLock -> cl_req c = BReadRows tbl keys ranges None limit ->
+  done_of i sb (snd (crun st sb)) = [] ->
+  snd (cstep (fst (crun st sb)) i) = ODone (ok (YRows res)) ->
+  (forall s, In s (own_servers i st (sb ++ [i])) -> row_const tbl k fs tf s) ->
+  (forall r, In r res -> row_key r = k -> r = mkRow k (scrub_fams tf fs))
+  /\ (limit <= 0 -> in_any (scan_ranges keys ranges) k -> scrub_fams tf fs <> [] -> In (mkRow k (scrub_fams tf fs)) res).
+Proof. exact scan_untouched_rows_exact. Qed.
+Print Assumptions C18_scan_untouched_rows_exact.
+
+(* ---- (d) status and progress ---- *)
+
+(* a valid read whose table exists parks at its first step ... *)
+Theorem C18_scan_starts : forall st i c rest tbl t, thread_at st i c rest PNew -> valid_read (cl_req c) ->
+  Conc.req_table (cl_req c) = Some tbl -> alookup tbl (cs_server st) = Some t ->
+  cstep st i = (set_prog st i c rest PAtLock, OAt).
+Proof. exact scan_starts. Qed.
+Print Assumptions C18_scan_starts.
+
+(* ... and whenever it answers while the table exists, it answers OK with rows *)
+Theorem C18_scan_status_ok : forall st i c rest p tbl keys ranges f limit t rsp,
+  thread_at st i c rest p -> cl_req c = BReadRows tbl keys ranges f limit ->
+  p = PAtLock \/ is_scan_prog p = true ->
+  alookup tbl (cs_server st) = Some t ->
+  snd (cstep st i) = ODone rsp -> exists res, rsp = ok (YRows res).
+Proof. exact scan_status_ok. Qed.
+Print Assumptions C18_scan_status_ok.
+
+(* never blocked unless a writer is parked inside its write section *)
+Theorem C18_scan_not_blocked : forall st i, conc_inv st -> (forall j, ~ at_mid st j) -> snd (cstep st i) <> OBlocked.
+Proof. exact scan_not_blocked. Qed.
+Print Assumptions C18_scan_not_blocked.
+
+(* every unblocked step of a scan answers, parks for the last send, or parks with a strictly
+   smaller (ranges left, snapshot rows left): it ends after finitely many steps of its own *)
+Theorem C18_scan_step_progress : forall st i c rest tbl keys ranges f limit rows rngs count coins pending acc,
+  thread_at st i c rest (PScan rows rngs count coins pending acc false) ->
+  cl_req c = BReadRows tbl keys ranges f limit ->
+  snd (cstep st i) = OAt ->
+  exists rows' rngs' c' co' p' acc' final',
+    prog_at (fst (cstep st i)) i = PScan rows' rngs' c' co' p' acc' final'
+    /\ ((final' = true /\ rows' = [] /\ rngs' = [])
+        \/ (final' = false /\ scan_lt (length rngs', length rows') (length rngs, length rows))).
+Proof. exact scan_step_progress. Qed.
+Print Assumptions C18_scan_step_progress.
+
+(* ---- non-vacuity: a scan that hands over in the middle, with a writer in between ---- *)
+Definition C18_tbl : bytes := [112; 47; 116; 97; 98; 108; 101; 115; 47; 116]%N.   (* "p/tables/t" *)
+Definition C18_w (k v : N) : call := mkCall (BMutateRow C18_tbl [k] [SetCell [102%N] [113%N] 1000 [v]]) 0 [].
+(* row a: 11 x 100 = 1100 cells (> btFlushChunks = 1024); rows b, c: one cell *)
+Definition C18_s0 : server :=
+  fst (run [] [mkCall (BCreateTable [112%N] [116%N] [([102%N], None)]) 0 [];
+               mkCall (BMutateRow C18_tbl [97%N] (bulk_muts [102%N] 11 100 1000 [1%N])) 0 [];
+               C18_w 98 1; C18_w 99 1]).
+Definition C18_read : call := mkCall (BReadRows C18_tbl [] [] None 0) 0 [].
+Definition C18_st : cstate := fst (crun (init_cstate C18_s0 [[C18_read]; [C18_w 98 2]]) [0%nat]).
+(* the scan's first section (hands over after row a), the writer commits b := 2, the scan
+   continues in its snapshot, last send *)
+Definition C18_sb : list nat := [0; 1; 1; 1; 0]%nat.
+
+Example C18_hyps_met :
+  server_wf C18_s0
+  /\ thread_at C18_st 0 C18_read [] PAtLock
+  /\ snd (crun C18_st C18_sb) = [OAt; OAt; OAt; ODone (ok YNone); OAt]
+  /\ done_of 0 C18_sb (snd (crun C18_st C18_sb)) = []
+  /\ (exists res, snd (cstep (fst (crun C18_st C18_sb)) 0) = ODone (ok (YRows res))
+        /\ map row_key res = [[97]; [98]; [99]]%N
+        (* b is returned with the value of the SNAPSHOT (1), not the committed 2 *)
+        /\ nth_error res 1 = Some (mkRow [98%N] [mkFam [102%N] [mkCol [113%N] [mkCell 1000 [1%N] []]]]))
+  /\ (exists t, alookup C18_tbl (cs_server (fst (crun C18_st C18_sb))) = Some t
+        /\ get_row t [98%N] = [mkFam [102%N] [mkCol [113%N] [mkCell 1000 [2%N] []]]]).
+Proof.
+  split; [apply reachable_wf|]. split; [vm_compute; reflexivity|]. split; [vm_compute; reflexivity|].
+  split; [vm_compute; reflexivity|]. split.
+  - eexists. split; [vm_compute; reflexivity|]. split; vm_compute; reflexivity.
+  - eexists. split; vm_compute; reflexivity.
+Qed.
+
+(* row c is untouched throughout: the hypothesis of (c) holds for it *)
+Example C18_untouched_hyp :
+  forall s, In s (own_servers 0 C18_st (C18_sb ++ [0%nat])) ->
+  row_const C18_tbl [99%N] [mkFam [102%N] [mkCol [113%N] [mkCell 1000 [1%N] []]]] [([102%N], None)] s.
+Proof.
+  assert (Hwf : server_wf (cs_server C18_st)) by (apply crun_wf; apply reachable_wf).
+  intros s Hs. destruct (own_servers_prefix _ _ _ _ Hs) as [n [Hn [_ ->]]].
+  assert (Hw : server_wf (cs_server (fst (crun C18_st (firstn n (C18_sb ++ [0%nat])))))) by (apply crun_wf; exact Hwf).
+  cbn [length C18_sb app] in Hn.
+  assert (Hrows : forall m, (m < 6)%nat -> exists t,
+            alookup C18_tbl (cs_server (fst (crun C18_st (firstn m (C18_sb ++ [0%nat]))))) = Some t
+            /\ t_fams t = [([102%N], None)]
+            /\ alookup [99%N] (t_rows t) = Some [mkFam [102%N] [mkCol [113%N] [mkCell 1000 [1%N] []]]]).
+  { intros m Hm. do 6 (destruct m as [|m]; [eexists; split; [vm_compute; reflexivity|split; vm_compute; reflexivity]|]). lia. }
+  destruct (Hrows n Hn) as [t [H1 [H2 H3]]]. exists t. repeat split; auto.
+  destruct Hw as [_ Hw]. destruct (Hw _ _ H1) as [G _]. exact G.
+Qed.
